@@ -26,6 +26,8 @@ import (
 
 	"verif/harness/common"
 	"verif/harness/conc"
+
+	"github.com/imoore76/ldlm/verifrt"
 )
 
 const concT = 10 * time.Second
@@ -252,6 +254,15 @@ func TestRestConc(t *testing.T) {
 			res.Count("dfs-exhausted:" + cp.p.Name)
 		}
 		conc.ExploreRandom(t, cp.p, nRandom, rng.Fork(uint64(pi)), visit("random"))
+		// second pass with yields live INSIDE critical sections too (the mutexes still exclude): the idle
+		// callback, a DELETE or another request can then run while a request is being served under its
+		// session mutex (a request that takes longer than it takes the timer to fire)
+		open := cp.p
+		setup := cp.p.Setup
+		open.Setup = func() any { c := setup(); verifrt.SetNoSuppress(true); return c }
+		open.Name = cp.p.Name
+		conc.ExploreDFS(t, open, bound, capRuns[pi]/2, visit("dfs-open"))
+		conc.ExploreRandom(t, open, nRandom, rng.Fork(uint64(pi)+77), visit("random-open"))
 		ks := common.SortedKeys(outcomes)
 		sort.SliceStable(ks, func(i, j int) bool { return outcomes[ks[i]] > outcomes[ks[j]] })
 		for _, k := range ks {
